@@ -92,7 +92,15 @@ class FieldModel:
         self.sargs = bind_args(self.sparams, self.serialized_call)
         self._keep = []  # substituted ASTs must stay alive: closures are cached by node identity
         self._skippable = {}
-        self.evaluator = BoolEval(dict(TEXT_ATOMS), {}, self.inline, self.special)
+        # single-assignment locals of object() that are not atoms themselves can be followed
+        locals_ = {}
+        counts = {}
+        for n in walk_no_nested(fn):
+            if isinstance(n, ast.Assign) and len(n.targets) == 1 and isinstance(n.targets[0], ast.Name):
+                counts[n.targets[0].id] = counts.get(n.targets[0].id, 0) + 1
+                locals_[n.targets[0].id] = n.value
+        locals_ = {k: v for k, v in locals_.items() if counts[k] == 1 and k not in TEXT_ATOMS}
+        self.evaluator = BoolEval(dict(TEXT_ATOMS), locals_, self.inline, self.special)
 
     # ------------------------------------------------------------------
     def special(self, e, val):
